@@ -247,10 +247,16 @@ fn concretise(ctx: &mut Ctx, r: &mut Value, step: usize, rng: &mut Rng) -> Optio
             let seq = ctx.seq_base + aseq;
             let cas = r["cas"].as_i64().unwrap_or(-1);
             let mut sig = crypto::sign_mutable(&sk, seq, &bytes, salt.as_deref());
-            let replayable = ctx.sigs.get(&(kl.clone(), salt_l.clone(), aseq)).filter(|(v0, _)| *v0 != val).map(|x| x.1);
+            // a genuine signature made earlier in this behaviour for the same key and salt but ANOTHER (seq, value) - the stored
+            // item's among them (k and sig of a stored item are public: every get returns them); the same seq is preferred
+            let replayable = ctx.sigs.get(&(kl.clone(), salt_l.clone(), aseq)).filter(|(v0, _)| *v0 != val).map(|x| x.1).or_else(|| {
+                let mut c: Vec<(i64, [u8; 64])> = ctx.sigs.iter().filter(|((k0, s0, q0), (v0, _))| *k0 == kl && *s0 == salt_l && !(*q0 == aseq && *v0 == val)).map(|((_, _, q0), (_, g))| (*q0, *g)).collect();
+                c.sort_by_key(|x| x.0);
+                c.last().map(|x| x.1)
+            });
             if r["sigok"].as_bool().unwrap_or(true) {
                 ctx.sigs.insert((kl.clone(), salt_l.clone(), aseq), (val.clone(), sig));
-            } else if let (Some(old), true) = (replayable, rng.chance(2, 3)) {
+            } else if let (Some(old), true) = (replayable, r["sigmode"] == "replay" || rng.chance(2, 3)) {
                 // the genuine signature of ANOTHER value with the same key, salt and seq (possibly the stored one)
                 sig = old;
             } else {
@@ -706,6 +712,25 @@ impl Tally {
     }
 }
 
+/// Replays of a public signature: a valid item is stored; a put then presents the STORED item's key and signature with another
+/// seq and / or value (higher seq, same seq, with the matching cas, with a huge seq); it is refused (206) and a get still returns
+/// the genuine item; the owner's next genuine write goes through.
+pub fn sig_replay_probes(id0: u64) -> Vec<Value> {
+    let mut v = vec![];
+    let from = json!({"ip": "a", "port": 1001});
+    let tok = json!({"kind":"issued","step":0});
+    let put = |seq: i64, cas: i64, val: &str, ok: bool| json!({"kind":"putmut","from":from,"tok":tok,"k":"k1","tk":"k1","salt":"","slen":0,
+        "seq":seq,"cas":cas,"val":val,"vlen":0,"sigok":ok,"sigmode": if ok { "" } else { "replay" }});
+    let get = || json!({"kind":"get","from":from,"t":["m","k1",""],"seqf":-1});
+    let mut id = id0;
+    for (seq2, cas2, val2) in [(2i64, -1i64, "w2"), (1, -1, "w2"), (3, -1, "w1"), (3, 1, "w2"), (1, 1, "w3")] {
+        let steps = vec![get(), put(1, -1, "w1", true), put(seq2, cas2, val2, false), get(), put(2, 1, "w3", true), get()];
+        v.push(json!({"b": id, "filter": "allow", "caps": {"imm": 1000, "mut": 1000, "hash": 2000, "peers": 500}, "steps": steps}));
+        id += 1;
+    }
+    v
+}
+
 /// Crowds: N different announcers (node ids, ports) / N different signers on ONE info_hash, then a lookup of it, for N around
 /// the size of an answer (20 peers / 10 signed announcements: an answer is a random sample once more are stored), a few more
 /// announces and lookups, and a second info_hash beside it.
@@ -826,7 +851,7 @@ pub fn run(args: &Args) -> i32 {
     let focus = args.str("focus", "C03");
     let mut rng = Rng::new(seed.wrapping_mul(77).wrapping_add(5));
     if n > 0 || args.u64("probes", 0) > 0 {
-        for b in lru_probes(2_000_000).into_iter().chain(crowd_probes(3_000_000)) {
+        for b in lru_probes(2_000_000).into_iter().chain(crowd_probes(3_000_000)).chain(sig_replay_probes(5_000_000)) {
             let r = replay(&b, &mut out, seed);
             t.add(&b, r);
         }
